@@ -72,7 +72,7 @@ def acpcBoard (ops : List Operation) : List Char :=
 
 /-- the hole cards known for player `p`: dealt to him (written only for the viewer, or for everybody in
     Pluribus form) at the positions they were dealt to, or shown by him later; two slots, unknown
-    cards leave a slot as it is.  The state carried along is (slots, cards dealt to `p` so far). -/
+    cards leave a slot as it is, and so does a shown card he is already known to hold.  The state carried along is (slots, cards dealt to `p` so far). -/
 def holeSlots (viewer : Option Nat) (p : Nat) (ops : List Operation) : List (List Char) :=
   (ops.foldl (fun (acc : List (List Char) × Nat) op =>
     let fill (off : Nat) (cs : List Card) : List (List Char) :=
@@ -80,7 +80,13 @@ def holeSlots (viewer : Option Nat) (p : Nat) (ops : List Operation) : List (Lis
     match op with
     | .holeDealing q cs _ =>
       if q = p then ((if viewer.isNone || viewer == some p then fill acc.2 cs else acc.1), acc.2 + cs.length) else acc
-    | .holeCardsShowingOrMucking q cs => if q = p then (fill 0 cs, acc.2) else acc
+    | .holeCardsShowingOrMucking q cs =>
+      -- a tabled card that is already among the player's known cards stays where it was dealt (since the
+      -- F28 repair; before, the i-th tabled card went to slot i, so a partial show `Ks ??` of `AsKs` read `KsKs`)
+      if q = p then
+        ((cs.zipIdx.foldl (fun s (c, i) =>
+            if c.known && !s.contains c.reprChars && i < s.length then s.set i c.reprChars else s) acc.1), acc.2)
+      else acc
     | _ => acc) ([[], []], 0)).1
 
 /-- the Pluribus result field -/
